@@ -116,3 +116,29 @@ func Harness_C13chain(d int) {
 	symNote("chain")
 	c13Check(text, symFlags{leftRec: symBool("leftRec")})
 }
+
+// Harness_C13code: the body of a code block is symbolic (characters that mean
+// something to the front end, to the builder's trimming of the block or to Go's
+// lexical structure). arg = 4*form + number of symbolic bytes; forms: state
+// block, action, code predicate, action behind CRLF line ends.
+const c13CodeAlphabet = "\n\r \ta{}\"'`/*\\;"
+
+func Harness_C13code(arg int) {
+	form, n := arg/4, arg%4
+	body := symBytes("k", n)
+	for _, b := range body {
+		symAssume(symInSet(b, c13CodeAlphabet))
+	}
+	var text []byte
+	switch form {
+	case 0:
+		text = append(append([]byte("A<-#{"), body...), "}'a'\n"...)
+	case 1:
+		text = append(append([]byte("A<-'a'{"), body...), "}\n"...)
+	case 2:
+		text = append(append([]byte("A<-&{"), body...), "}'a'\n"...)
+	default:
+		text = append(append([]byte("A<-'a'\r\n/'b'{"), body...), "}\r\n"...)
+	}
+	c13Check(text, c13Flags())
+}
